@@ -122,22 +122,14 @@ pub fn run(rep: &mut Report) {
     rep.assume("a password that the standard's own algorithm cannot tell from the real one (same first 32 bytes for R2-R4) is not a 'wrong' password");
     let skipped = AtomicU64::new(0);
     let compared = AtomicU64::new(0);
-    let n_pw = if thorough { 8 } else { 6 };
+    let n_pw = if thorough { 10 } else { 8 };
     let n_seed = if thorough { 5 } else { 3 };
     rep.explore("roundtrip", Explore::dev(if thorough { 2 } else { 1 }), |c: &mut Ctx| {
         let s = c.choose("strength", 4);
         let xs = c.flag("xref_stream");
         let os = c.flag("object_streams");
         let comp = !c.flag("no_compression");
-        // the library takes seconds to write and to read a file with object streams AND a
-        // cross-reference stream; those two configurations keep their place in the FULL product but
-        // get the default secondary choices only (quick) or shortened menus (thorough)
-        let slow = xs && os;
-        let (m_pw, m_p, m_c, m_s) = match (slow, thorough) {
-            (true, false) => (1, 1, 1, 1),
-            (true, true) => (3, 3, 3, 2),
-            (false, _) => (n_pw, 10, 3, n_seed),
-        };
+        let (m_pw, m_p, m_c, m_s) = (n_pw, N_PERMS, 3, n_seed);
         let pwk = c.choose_dev("passwords", m_pw);
         let pk = c.choose_dev("permissions", m_p);
         let ck = c.choose_dev("content", m_c);
@@ -171,7 +163,7 @@ pub fn run(rep: &mut Report) {
             // the known defect; everything downstream (not encrypted, ciphertext, any password) follows from it.
             // The library-side confirmation is skipped in the quick tier for the object-stream
             // configurations, where opening a file costs seconds.
-            let confirmed = if os && !thorough { true } else { matches!(enc::lib_open(&ebytes, None), Ok(l) if !l.encrypted) };
+            let confirmed = matches!(enc::lib_open(&ebytes, None), Ok(l) if !l.encrypted);
             if confirmed {
                 c.fail("C05/xref-stream-trailer-lacks-Encrypt-and-ID", format!("{tag}: the cross-reference stream dictionary has neither /Encrypt nor /ID; the file reads back as not encrypted"));
                 c.outcome(1);
